@@ -106,6 +106,7 @@ StepNode(st, nd) ==
     [] k = "call" -> Append(DropN(st, nd[2]), <<"f", "(">> \o JoinToks(IF Bug = "ArgsReversed" THEN Rev(TopN(st, nd[2])) ELSE TopN(st, nd[2]), ",") \o <<")">>)
     [] k = "list" -> Append(DropN(st, nd[2]), <<"(">> \o JoinToks(TopN(st, nd[2]), ",") \o <<")">>)
     [] k = "arr" -> Append(DropN(st, nd[2] * nd[3]), <<"[">> \o JoinRows(TopN(st, nd[2] * nd[3]), nd[3]) \o <<"]">>)
+    [] k = "ws" -> IF Bug = "WhitespacePops" /\ st # <<>> THEN DropN(st, 1) ELSE st      \* nodes that render nothing leave the stack alone
 RECURSIVE RunProg(_, _)
 RunProg(pr, st) == IF pr = <<>> THEN st ELSE RunProg(Tail(pr), StepNode(st, Head(pr)))
 
@@ -131,8 +132,12 @@ MkList(n) == /\ Budget /\ "list" \in Features /\ Len(stack) >= n /\ \A i \in 1..
              /\ stack' = Append(DropN(stack, n), <<"list", TopN(stack, n)>>) /\ prog' = Append(prog, <<"list", n>>)
 MkArr(r, c) == /\ Budget /\ "arr" \in Features /\ Len(stack) >= r * c /\ \A i \in 1..(r * c) : Kind(TopN(stack, r * c)[i]) = "leaf"
                /\ stack' = Append(DropN(stack, r * c), <<"arr", r, c, TopN(stack, r * c)>>) /\ prog' = Append(prog, <<"arr", r, c>>)
+\* nodes the renderer skips (PREPEND/APPEND_WHITESPACE_NODE: the blanks the user typed; 133 of them in the fixtures): they may sit anywhere
+\* in the node array and change nothing
+Whitespace == /\ Budget /\ "ws" \in Features /\ (IF prog = <<>> THEN TRUE ELSE prog[Len(prog)][1] # "ws") /\ prog' = Append(prog, <<"ws">>) /\ UNCHANGED stack
 Init == stack = <<>> /\ prog = <<>>
 Next == \/ \E k \in LeafKinds : PushLeaf(k)
+        \/ Whitespace
         \/ PushEmpty
         \/ \E op \in BinOps : Bin(op)
         \/ Neg \/ Pct
